@@ -140,6 +140,10 @@ func checkURLValue(r *vp.Recorder, key string, u *url.URL, scheme, host, port, p
 	}
 	if out.Path != u.Path {
 		diffs = append(diffs, "path")
+	} else if canon := (&url.URL{Path: u.Path}).EscapedPath(); out.EscapedPath() != canon {
+		// the path as it goes on the wire (request target, String()): the
+		// canonical escaping of that path, not some other spelling of it
+		diffs = append(diffs, "escaped-path")
 	}
 	if len(diffs) == 0 {
 		// the multiaddr itself must name the same path: a second conversion
